@@ -47,12 +47,13 @@ theorem cacheOK_of_b {s : State} (h : cacheOKB s = true) : CacheOK s := by
 /-- `Scene` as a Boolean -/
 def sceneB (s : State) (ns name : String) (pod : Pod) : Bool :=
   coherentB s && cacheOKB s && decide (Tbl.get s.pods (ns, name) = some pod) &&
-    decide (Tbl.get s.vPods (ns, name) = some pod) && pod.wants
+    decide (Tbl.get s.vPods (ns, name) = some pod) && pod.wants && pod.node == ""
 
 theorem scene_of_b {s : State} {ns name : String} {pod : Pod} (h : sceneB s ns name pod = true) : Scene s ns name pod := by
   unfold sceneB at h
   simp only [Bool.and_eq_true, decide_eq_true_eq] at h
-  exact ⟨coherent_of_b h.1.1.1.1, cacheOK_of_b h.1.1.1.2, h.1.1.2, h.1.2, h.2⟩
+  simp only [beq_iff_eq] at h
+  exact ⟨coherent_of_b h.1.1.1.1.1, cacheOK_of_b h.1.1.1.1.2, h.1.1.1.2, h.1.1.2, h.1.2, h.2⟩
 
 /-- `Routable` as a Boolean (meaningful under `WF`) -/
 def routableB (s : State) (ip : IP) (node : String) : Bool :=
